@@ -574,6 +574,47 @@ def gen_strip_pipeline_case(rng):
     return {"kind": "pipeline", "fam": fam, "disp": [a, b], "grids": None, "pipeline": p, "bd_rev": False}
 
 
+def run_fractional_grid_family(ctx, rng):
+    """per-pixel intervals whose bounds are multiples of 1/4 pixel (float grids: the grids of the multiscale step
+    after a refinement, grid files), smallest bound fractional half of the time: inside a pixel's own interval the
+    cost is the one obtained with the whole-pixel scalar interval that contains every grid value, outside it is NaN"""
+    case = mu.fractional_grids(rng, mu.gen_case(rng, max_nd=24, small=True))
+    gmin, gmax = case["grids"]
+    lo = math.floor(min(min(r) for r in gmin))
+    hi = math.ceil(max(max(r) for r in gmax))
+    cvg, e1 = mu.run_impl(case)
+    cvs, e2 = mu.run_impl(dict(case, grids=None, disp=[lo, hi], fractional=False))
+    ctx.count("fractional_grid_families")
+    if e1 is not None or e2 is not None:
+        ctx.case(None)
+        if (e1 is None) != (e2 is None):
+            ctx.violation("fractional_grids_raise", f"{case['measure']} window {case['window']} subpix {case['subpix']}: "
+                          f"quarter-pixel grids inside [{lo},{hi}] -> {type(e1).__name__ if e1 else 'runs'}, scalar interval -> "
+                          f"{type(e2).__name__ if e2 else 'runs'}", dict(case, kind="fractional_family"))
+        return
+    ctx.traces += 2
+    ctx.case(("frac_family", case["measure"], case["window"], case["subpix"], hash(str(case["grids"]) + str(case["left"]))))
+    dg = [float(x) for x in cvg.coords["disp"].data]
+    ds_ = [float(x) for x in cvs.coords["disp"].data]
+    vg, vs = cvg["cost_volume"].data, cvs["cost_volume"].data
+    for k, d in enumerate(dg):
+        if d not in ds_:
+            ctx.violation("fractional_grids_axis", f"sample {d} of the axis built from quarter-pixel grids is not a sample "
+                          f"of the axis of [{lo},{hi}]", dict(case, kind="fractional_family"))
+            return
+        j = ds_.index(d)
+        inside = (np.array(gmin) <= d) & (d <= np.array(gmax))
+        want = np.where(inside, vs[:, :, j], np.nan)
+        if not eqnan(vg[:, :, k], want):
+            r, c = [int(x) for x in np.argwhere(~((vg[:, :, k] == want) | (np.isnan(vg[:, :, k]) & np.isnan(want))))[0]]
+            ctx.violation("fractional_grids_differ",
+                          f"{case['measure']} window {case['window']} subpix {case['subpix']}: pixel ({r},{c}) with its own "
+                          f"interval [{gmin[r][c]}, {gmax[r][c]}] "
+                          f"({'inside' if inside[r, c] else 'outside'}), disparity {d}: cost {_f(vg[r, c, k])}, with the scalar "
+                          f"interval [{lo},{hi}] {_f(vs[r, c, j])}", dict(case, kind="fractional_family"))
+            return
+
+
 POST_KINDS = ("disparity", "refinement", "filter", "validation")
 
 
@@ -722,6 +763,15 @@ def run(ctx):
             mc_gen.run(ctx)
         elif rc.get("kind") == "pipeline":
             run_pipeline_case(ctx, rc)
+        elif rc.get("kind") == "fractional_family":
+            import random as _random
+            _orig = mu.fractional_grids
+            mu.fractional_grids = lambda _rng, _case: rc      # replay: the stored case as it is
+            mu_gen, mu.gen_case = mu.gen_case, (lambda *_a, **_k: rc)
+            try:
+                run_fractional_grid_family(ctx, _random.Random(0))
+            finally:
+                mu.fractional_grids, mu.gen_case = _orig, mu_gen
         else:
             jobs = []
             fam = dict(rc)
@@ -758,6 +808,8 @@ def run(ctx):
             run_pipeline_case(ctx, pc)
     for i in range(44 if quick else 3000):
         run_pipeline_case(ctx, gen_pipeline_case(rng, free=(i % 2 == 1)))
+    for _ in range(30 if quick else 600):
+        run_fractional_grid_family(ctx, rng)
     for _ in range(12 if quick else 400):
         ctx.count("strip_pipelines")
         run_pipeline_case(ctx, gen_strip_pipeline_case(rng))
